@@ -30,10 +30,14 @@ func (vc *VC) Script(o *Obligation, forCVC5 bool, modelVars []string) string {
 	}
 	sb.WriteString("(set-option :produce-models true)\n")
 	sb.WriteString("(set-logic ALL)\n")
+	axioms := vc.strAxioms()
 	for _, d := range vc.decls {
 		sb.WriteString(d + "\n")
 	}
-	for _, d := range vc.strAxioms() {
+	for _, d := range axioms {
+		if o.WantSat && strings.Contains(d, "(forall") {
+			continue // satisfiability (vacuity) checks run without the quantified string axioms
+		}
 		sb.WriteString(d + "\n")
 	}
 	for _, l := range vc.lines[:o.Prefix] {
@@ -128,6 +132,9 @@ func Solve(vc *VC, o *Obligation, dir string, timeout int, modelVars []string, c
 	script := vc.Script(o, false, modelVars)
 	if err := os.WriteFile(fname, []byte(script), 0644); err != nil {
 		return &SolveResult{Status: "error", Output: err.Error()}
+	}
+	if o.WantSat && timeout > 6 {
+		timeout = 6
 	}
 	usesSets := strings.Contains(script, "(Set Int)") || strings.Contains(script, "set.")
 	ctx, cancel := context.WithCancel(context.Background())
